@@ -161,6 +161,7 @@ def run(chk) -> None:
 
 
 TWINS = [
+    Twin("benign: rewind result bound through a local pair", CL_REL, "        self.state, commands = rewind_in_progress(self.state, start)\n", "        rewound = rewind_in_progress(self.state, start)\n        self.state, commands = rewound\n", None),
     Twin("resume restarts the rewound workers directly and drops the other rewind commands", CL_REL, "            try:\n                await self.process_command(command)\n            except Exception:\n                await self.cleanup_tasks()\n                raise\n",
          "            if isinstance(command, CommandRunWorker):\n                self.run_worker(command)\n", "C35.R1"),
     Twin("publications of a tick skipped while the run is stopping", CL_REL, "        for command in commands:\n            try:\n                result = await self.process_command(command)\n",
